@@ -43,6 +43,8 @@ mod selection;
 mod spinlock;
 mod theme;
 mod util;
+#[cfg(feature = "verif")]
+pub mod verif;
 
 //------------------------------------------------------------------------------
 pub trait AsAny {
